@@ -174,3 +174,30 @@ package types
 //@ lemma [C20] chn_grp_roundtrip: forall c string :: len(c) >= 3 && c[0] == 'c' && c[1] == 'h' && c[2] == 'n' ==> sameText(GrpToChn(ChnToGrp(c)), c)
 //@ lemma [C20] chn_is_channel: forall g string :: len(g) >= 3 && g[0] == 'g' && g[1] == 'r' && g[2] == 'p' ==> IsChannel(GrpToChn(g)) && !IsChannel(g)
 //@ lemma [C20] grp_chn_other: forall s string :: !(len(s) >= 3 && ((s[0] == 'g' && s[1] == 'r' && s[2] == 'p') || (s[0] == 'c' && s[1] == 'h' && s[2] == 'n'))) ==> len(GrpToChn(s)) == 0 && len(ChnToGrp(s)) == 0
+
+// ---------------------------------------------------------------------------------------------
+// C05 (continued): deltas
+// ---------------------------------------------------------------------------------------------
+
+// ApplyDelta either applies the whole delta or leaves the target untouched.
+//@ func (m *AccessMode) ApplyDelta(delta string) (err error)
+//@   requires [C05] m != nil
+//@   modifies *m
+//@   ensures [C05] onerr:  err != nil ==> *m == old(*m)
+//@   ensures [C05] noop:   (len(delta) == 0 || (len(delta) == 1 && delta[0] == 'N')) ==> err == nil && *m == old(*m)
+//@   ensures [C05] masked: (*m &^ ModeBitmask) == (old(*m) &^ ModeBitmask)
+//@   safe
+//@   loop 1
+//@     invariant high:   (m0 &^ ModeBitmask) == (*m &^ ModeBitmask) && *m == old(*m)
+//@     invariant bounds: next >= -1 && next < len(delta)
+
+//@ func (m *AccessMode) ApplyMutation(mutation string) (err error)
+//@   requires [C05] m != nil
+//@   modifies *m
+//@   ensures [C05] onerr: err != nil ==> *m == old(*m)
+//@   ensures [C05] empty: len(mutation) == 0 ==> err == nil && *m == old(*m)
+
+// Bounded stand-in (the unbounded proof of the two string loops against each other is not attempted): the real
+// Delta and ApplyDelta are executed on all 256 x 256 pairs of permission sets.
+//@ bounded [C05] delta_roundtrip: o AccessMode in 0..255, n AccessMode in 0..255 :: func() bool { m := o; if err := m.ApplyDelta(o.Delta(n)); err != nil { return false }; return m == n }()
+//@ bounded [C05] mutation_roundtrip: o AccessMode in 0..255, n AccessMode in 0..255 :: func() bool { m := o; d := o.Delta(n); if o == 0 || d == "" { d = n.String() }; if err := m.ApplyMutation(d); err != nil { return false }; return m == n }()
